@@ -43,62 +43,62 @@ const (
 func init() {
 	property("C01", "Replies arrive in request order, exactly one per request",
 		"that each merged or relayed reply body is itself exactly one RESP reply (value-level, see C02/C07); cursor arithmetic inside the buffers (C19 decides their structure only); kernel behaviour",
-		"C01.1", "C01.2", "C01.3", "C01.4", "C01.5", "C01.6", "C03.6", "C03.7", "C09.4", "C02.7", "C01.7", "C19.1", "C19.2", "C19.3", "C19.4", "C19.5", "C19.6", "C19.7", "C19.8", "C04.5", "C04.7")
+		"C01.1", "C01.2", "C01.3", "C01.4", "C01.5", "C01.6", "C03.6", "C03.7", "C09.4", "C02.7", "C01.7", "C19.1", "C19.2", "C19.3", "C19.4", "C19.5", "C19.6", "C19.7", "C19.8", "C04.5", "C04.7", "C16.4", "C09.8", "C08.8", "C19.9", "C10.2", "C16.7", "C01.8", "C13.2")
 	property("C02", "Single-key requests and their replies pass through byte-exact",
 		"that readReply's recursive framing computes the right frame length for every RESP2 value; parseLen/ReadN arithmetic for every length; behaviour at multi-megabyte sizes; cursor arithmetic inside the ring/list buffers (C19 decides their structure only)",
-		"C02.1", "C02.2", "C02.3", "C02.4", "C02.5", "C02.6", "C02.7", "C01.5", "C09.3", "C19.1", "C19.2", "C19.3", "C19.4", "C19.5", "C19.6", "C19.7", "C19.8", "C08.6", "C04.5", "C04.7", "C08.7", "C06.4")
+		"C02.1", "C02.2", "C02.3", "C02.4", "C02.5", "C02.6", "C02.7", "C01.5", "C09.3", "C19.1", "C19.2", "C19.3", "C19.4", "C19.5", "C19.6", "C19.7", "C19.8", "C08.6", "C04.5", "C04.7", "C08.7", "C06.4", "C06.6", "C04.10", "C11.7", "C09.8", "C08.8", "C19.9", "C01.8")
 	property("C03", "A client never receives a reply produced for a different request",
 		"that a backend answers in order on one connection (protocol assumption); the actual reuse order of sync.Pool objects",
-		"C03.1", "C03.2", "C03.3", "C03.4", "C03.5", "C03.6", "C03.7", "C02.1", "C02.3", "C03.8", "C08.4", "C04.5", "C04.7")
+		"C03.1", "C03.2", "C03.3", "C03.4", "C03.5", "C03.6", "C03.7", "C02.1", "C02.3", "C03.8", "C08.4", "C04.5", "C04.7", "C16.4", "C10.2", "C01.8", "C13.2", "C11.10")
 	property("C04", "Requests are routed to the replica set owning the key's slot, by role",
 		"the contents of the slot table versus the real cluster (C14); what a node does with READONLY/AUTH",
-		"C04.1", "C04.2", "C04.3", "C04.4", "C04.5", "C04.6", "C04.7", "C14.6", "C03.6", "C08.4", "C04.8", "C05.1", "C05.2", "C05.3", "C14.10", "C04.9", "C20.2", "C20.3")
+		"C04.1", "C04.2", "C04.3", "C04.4", "C04.5", "C04.6", "C04.7", "C14.6", "C03.6", "C08.4", "C04.8", "C05.1", "C05.2", "C05.3", "C14.10", "C04.9", "C20.2", "C20.3", "C04.10", "C11.10")
 	property("C05", "Key-to-slot mapping equals the Redis Cluster key-slot function",
 		"that the loop body of hash computes the CRC recurrence for every input (arithmetic shape; the table, the reduction, the tag extraction and the call sites are decided)",
 		"C05.1", "C05.2", "C05.3", "C05.4")
 	property("C06", "Multi-key requests are split into one exact per-slot fragment each",
 		"that the concatenation of correctly shaped, length-prefixed pieces is accepted by Redis for every byte content (follows from RESP framing; not re-proved)",
-		"C06.1", "C06.2", "C06.3", "C06.4", "C03.6", "C05.1", "C05.2", "C05.3", "C06.5")
+		"C06.1", "C06.2", "C06.3", "C06.4", "C03.6", "C05.1", "C05.2", "C05.3", "C06.5", "C06.6", "C13.7")
 	property("C07", "Split multi-key replies are reassembled correctly in any arrival order",
 		"parseMGet's element slicing for every value (byte arithmetic); integer parsing of DEL counts; behaviour if a node returns the wrong number of elements",
-		"C07.1", "C07.2", "C07.3", "C07.4", "C13.1", "C03.6", "C03.8", "C07.5", "C07.6")
+		"C07.1", "C07.2", "C07.3", "C07.4", "C13.1", "C03.6", "C03.8", "C07.5", "C07.6", "C06.6", "C11.3", "C17.4")
 	property("C08", "Request framing is independent of TCP segmentation",
 		"conn.Peek/Discard/Next arithmetic across ring leftover and fresh bytes and the ring buffer's cursor arithmetic (C19 decides structure only) - value-level",
-		"C08.1", "C08.2", "C08.3", "C08.4", "C08.5", "C02.4", "C02.1", "C08.6", "C08.7", "C06.4", "C19.1", "C19.2", "C19.3", "C19.4", "C19.5", "C19.6", "C19.7", "C19.8")
+		"C08.1", "C08.2", "C08.3", "C08.4", "C08.5", "C02.4", "C02.1", "C08.6", "C08.7", "C06.4", "C19.1", "C19.2", "C19.3", "C19.4", "C19.5", "C19.6", "C19.7", "C19.8", "C09.8", "C08.8", "C01.7", "C01.8")
 	property("C09", "Completed replies are delivered promptly, not withheld by later requests",
 		"any time bound; scheduling of the event loop",
-		"C09.1", "C09.2", "C09.3", "C09.4", "C09.5", "C09.6", "C09.7", "C08.7", "C11.7")
+		"C09.1", "C09.2", "C09.3", "C09.4", "C09.5", "C09.6", "C09.7", "C08.7", "C11.7", "C09.8", "C07.2", "C01.7")
 	property("C10", "Requests from one client reach each node in the order sent",
 		"more than one connection per node (excluded by the property); kernel behaviour",
-		"C10.1", "C10.2", "C10.3", "C01.5", "C02.7", "C15.3", "C10.4", "C19.1", "C19.2", "C19.3", "C19.4", "C19.5", "C19.6", "C19.7", "C19.8", "C10.5")
+		"C10.1", "C10.2", "C10.3", "C01.5", "C02.7", "C15.3", "C10.4", "C19.1", "C19.2", "C19.3", "C19.4", "C19.5", "C19.6", "C19.7", "C19.8", "C10.5", "C16.4")
 	property("C11", "Backend errors reach the client as errors, never as success or a crash",
 		"the set of error texts Redis can emit (the rules are on the reply type byte)",
-		"C11.1", "C11.2", "C11.3", "C11.4", "C03.6", "C11.5", "C11.6", "C03.5", "C08.7", "C11.7", "C11.8")
+		"C11.1", "C11.2", "C11.3", "C11.4", "C03.6", "C11.5", "C11.6", "C03.5", "C08.7", "C11.7", "C11.8", "C11.9", "C07.3", "C07.2", "C11.10")
 	property("C12", "No client input can crash the proxy, disturb others or reach a backend malformed",
 		"that parseLen accepts only canonical decimal and cannot overflow; memory growth on never-completing requests; every index expression on client bytes",
-		"C12.1", "C12.2", "C12.3", "C12.4", "C12.5", "C08.2", "C17.2", "C02.1", "C02.4", "C12.6", "C08.6", "C12.7", "C06.4", "C12.8", "C11.8")
+		"C12.1", "C12.2", "C12.3", "C12.4", "C12.5", "C08.2", "C17.2", "C02.1", "C02.4", "C12.6", "C08.6", "C12.7", "C06.4", "C12.8", "C11.8", "C11.9", "C13.7", "C05.1", "C05.2", "C05.3", "C17.9", "C08.8")
 	property("C13", "MOVED and ASK redirects are followed transparently and terminate",
 		"that the final node's reply is correct; cluster-side migration semantics",
-		"C13.1", "C13.2", "C13.3", "C13.4", "C13.5", "C15.4", "C13.6", "C03.5", "C16.6")
+		"C13.1", "C13.2", "C13.3", "C13.4", "C13.5", "C15.4", "C13.6", "C03.5", "C16.6", "C13.7")
 	property("C14", "Routing table converges to the latest valid CLUSTER NODES description",
 		"'within a few seconds'; the text-to-struct parsing of addresses/epochs for every text; data races between the refresh goroutine and the event loop (a scheduling matter)",
-		"C14.1", "C14.2", "C14.3", "C14.4", "C14.5", "C14.6", "C14.7", "C14.8", "C14.9", "C14.10", "C15.8", "C14.11")
+		"C14.1", "C14.2", "C14.3", "C14.4", "C14.5", "C14.6", "C14.7", "C14.8", "C14.9", "C14.10", "C15.8", "C14.11", "C14.12")
 	property("C15", "Losing a backend never leaves a client waiting forever",
 		"liveness as such; kernel-level failure modes; whether a reconnect succeeds",
-		"C15.1", "C15.2", "C15.3", "C15.4", "C15.5", "C15.6", "C14.6", "C16.4", "C16.5", "C15.7", "C16.6", "C15.8", "C13.6", "C15.9", "C04.8")
+		"C15.1", "C15.2", "C15.3", "C15.4", "C15.5", "C15.6", "C14.6", "C16.4", "C16.5", "C15.7", "C16.6", "C15.8", "C13.6", "C15.9", "C04.8", "C11.9", "C14.12", "C04.10")
 	property("C16", "A timed-out request gets one timeout error and the connection stays usable",
 		"when msgTimeout runs (it is skipped on idle poll rounds); equal-deadline collisions in the LLRB tree (value-level)",
-		"C16.1", "C16.2", "C16.3", "C16.4", "C16.5", "C03.2", "C07.1", "C16.6", "C15.8", "C03.3", "C03.7")
+		"C16.1", "C16.2", "C16.3", "C16.4", "C16.5", "C03.2", "C07.1", "C16.6", "C15.8", "C03.3", "C03.7", "C04.10", "C16.7")
 	property("C17", "Only supported, well-formed, size-limited requests are forwarded",
 		"whether the arity table equals Redis's own arity (the property defines arity by the proxy's table)",
-		"C17.1", "C17.2", "C17.3", "C17.4", "C17.5", "C17.6", "C17.7", "C02.4", "C08.6", "C17.8")
+		"C17.1", "C17.2", "C17.3", "C17.4", "C17.5", "C17.6", "C17.7", "C02.4", "C08.6", "C17.8", "C17.9")
 	property("C18", "IP whitelist admits exactly the configured addresses, also after reload",
 		"'within a few seconds'; IPv6 remote addresses; the behaviour of fsnotify/inotify itself",
-		"C18.1", "C18.2", "C18.3", "C18.4", "C18.5")
+		"C18.1", "C18.2", "C18.3", "C18.4", "C18.5", "C18.6")
 	property("C19", "I/O buffers behave as exact FIFO byte queues",
 		"cursor arithmetic along operation sequences (wrap-around offsets, growth sizes, spill thresholds): that the bytes read are the bytes written for every sequence is a value-level statement; the io.ReaderFrom/io.WriterTo adaptors of the buffers (not used by the proxy's data path)",
-		"C19.1", "C19.2", "C19.3", "C19.4", "C19.5", "C19.6", "C19.7", "C19.8", "C02.5", "C02.6", "C02.7", "C01.5", "C08.4")
+		"C19.1", "C19.2", "C19.3", "C19.4", "C19.5", "C19.6", "C19.7", "C19.8", "C02.5", "C02.6", "C02.7", "C01.5", "C08.4", "C19.9")
 	property("C20", "Reads are spread over all healthy replicas of the owning master",
 		"the distribution itself (math/rand); the ban/lift timing policy",
-		"C20.1", "C20.2", "C20.3", "C04.2", "C14.9", "C04.9", "C04.8", "C14.10", "C04.5")
+		"C20.1", "C20.2", "C20.3", "C04.2", "C14.9", "C04.9", "C04.8", "C14.10", "C04.5", "C20.4", "C14.3")
 }
